@@ -264,6 +264,20 @@ def run_block(c, NP, NL, KMAX, predict_type, mssdc_jac, all_to_done, nsweeps, in
                 c.solver.pop()
                 if r != 'unsat':
                     viol.append(('done-without-sweep', (p, words[p], r)))
+    # stopping is sound (residual criterion): a step that finished before its budget, without being forced, has a last checked residual within restol
+    if maxiter_sym and not forced_done:
+        for p in range(NP):
+            kfin = int(ctl.MS[p].status.iter)
+            n = STATE['occ'].get((p, kfin), 0)
+            if n == 0:
+                continue
+            rlast = z3.Real(f'r_{p}_{kfin}_{n - 1}')
+            c.solver.push()
+            c.solver.add(z3.And(rlast > core.rv(1e-3), z3.IntVal(kfin) < mx))  # (restol of build(): the float 1e-3 taken exactly)
+            r = core.check(c.solver, 'validity', None)
+            c.solver.pop()
+            if r != 'unsat':
+                viol.append(('finished-above-restol', (p, kfin, r)))
     # (7) exactly one surviving record per step and type
     for typ in ('niter', 'residual_post_step'):
         recs = filter_stats(stats, type=typ)
